@@ -1726,6 +1726,16 @@ def m_num_from(eng, st, args, info):
     return [(st, eng.cast(st, "IntToInt", args[0], m.group(2)))]
 
 
+def m_char_from(eng, st, args, info):
+    """char::from(u8) / u32::from(char): the same value as the `as` cast"""
+    k = info["key"]
+    if "From<u8> for char" in k:
+        return [(st, eng.cast(st, "IntToInt", args[0], "char"))]
+    if "From<char> for u32" in k:
+        return [(st, eng.cast(st, "IntToInt", args[0], "u32"))]
+    return None
+
+
 def m_slice_len(eng, st, args, info):
     v = args[0]
     tgt = v[1] if v[0] == "ref" else None
@@ -1780,6 +1790,7 @@ DEFAULT_MODELS = {
     "core::cmp::Ordering::then": m_then,
     "core::iter::traits::iterator::Iterator::any": m_iter_any,
     "core::array::iter::into_iter": m_array_into_iter,
+    "core::char::convert::from": m_char_from,
     "<core::array::iter::IntoIter<T, N> as core::iter::traits::iterator::Iterator>::next": m_array_iter_next,
     "core::intrinsics::discriminant_value": m_discriminant_value,
     "core::num::count_ones": m_intrinsic1("count_ones", lambda a: I(bin(a[1] & ((1 << MASKS[a[2]]) - 1)).count("1"), "u32")),
